@@ -4,6 +4,7 @@ set -e
 kind=$1; name=$2; file=$3; old=$4; new=$5
 tmp=$(mktemp -d)
 cp -a /repo $tmp/repo
+(cd $tmp/repo && git add -A >/dev/null 2>&1 && git -c user.email=x@x -c user.name=x commit -qm wip >/dev/null 2>&1 || true)
 python3 - "$tmp/repo/$file" "$old" "$new" <<'PY'
 import sys
 p,old,new=sys.argv[1:4]
